@@ -7,6 +7,7 @@ import random
 from datetime import datetime, timedelta
 
 DAYS = ["mon", "tue", "wed", "thu", "fri", "sat", "sun"]
+MONTH_MIN = 30.4167 * 1440      # a booking of '+1m' blocks a fixed span of 30.4167 days (it does not follow the calendar month)
 # zones whose UTC offsets (incl. DST jumps) are whole hours -> aligned at every resolution used
 ALIGNED_ZONES = ["Asia/Tokyo", "America/New_York", "Europe/London", "Pacific/Kiritimati", "Europe/Berlin",
                  "America/Los_Angeles", "Australia/Sydney", "Pacific/Auckland", "America/Sao_Paulo", "Africa/Cairo",
@@ -244,7 +245,7 @@ def gen(rnd, *, core=False, res_choices=(60, 60, 30, 15), subslot=True, alap=Non
             bs = []
             for _ in range(rnd.randint(1, 2)):
                 s = base + timedelta(days=rnd.randrange(0, max(2, min(14, span_days))), minutes=rnd.randrange(0, 24 * 60, res))
-                bs.append((s, rnd.choice([res, 2 * res, 6 * 60, 24 * 60, 3 * res, 2 * 24 * 60, 3 * 24 * 60, 7 * 24 * 60])))   # 7 days are written '+1w'
+                bs.append((s, rnd.choice([res, 2 * res, 6 * 60, 24 * 60, 3 * res, 2 * 24 * 60, 3 * 24 * 60, 7 * 24 * 60, MONTH_MIN])))   # 7 days are written '+1w', a month '+1m'
             r["bookings"] = bs
         if limits and rnd.random() < 0.3:
             r["limits"] = {rnd.choice(["dailymax", "weeklymax"]): rnd.choice([1, 2, 3, 4, 6, 1.5, 2.5, 7.5, 3.75])}   # fractions: seeded change C05-d rounded them
@@ -628,7 +629,7 @@ def render(m, refrnd=None, precrnd=None, extra_header=None, scenarios=None, trai
             L.append("%s  vacation %s" % (ind, fmt_dt(s) if e is None else "%s - %s" % (fmt_dt(s), fmt_dt(e))))
         for s, mins in r.get("bookings", []):
             # every unit the grammar knows: whole calendar days as 'd', whole hours as 'h', else minutes (seeded change C02-b)
-            dur = ("%dw" % (mins // 10080)) if mins % 10080 == 0 else ("%dd" % (mins // 1440)) if mins % 1440 == 0 else (("%dh" % (mins // 60)) if mins % 60 == 0 else ("%dmin" % mins))
+            dur = "1m" if mins == MONTH_MIN else ("%dw" % (mins // 10080)) if mins % 10080 == 0 else ("%dd" % (mins // 1440)) if mins % 1440 == 0 else (("%dh" % (mins // 60)) if mins % 60 == 0 else ("%dmin" % mins))
             L.append('%s  booking "B" %s +%s' % (ind, d_full(s), dur))
         if r.get("limits"):
             L.append("%s  %s" % (ind, limits_text(r["limits"])))
